@@ -155,6 +155,9 @@ def _contains_return(stmts):
     return False
 
 
+_TRYVAL = [0]
+
+
 def _tailify(stmts, budget=None):
     """guard clauses -> nested if/else: the statements after an `if` that returns on some branch move into the branches that do
     not return, so that every `return` ends up in tail position (loops/try/with that return are left alone)"""
@@ -182,6 +185,17 @@ def _tailify(stmts, budget=None):
                     st.orelse = _tailify(list(st.orelse) + rest, budget)
             out.append(st)
             return out
+        if isinstance(st, ast.Try) and not st.finalbody and not st.orelse and st.body and isinstance(st.body[-1], ast.Return) \
+                and st.body[-1].value is not None and not _contains_return(st.body[:-1]):
+            # `try: ..; return E except X: H` -> `try: ..; __tv = E except X: H else: return __tv` (E stays under the handlers'
+            # protection, the return itself cannot raise)
+            _TRYVAL[0] += 1
+            tv = "__tryval%d" % _TRYVAL[0]
+            ret = st.body[-1]
+            asg = ast.copy_location(ast.Assign(targets=[ast.Name(id=tv, ctx=ast.Store())], value=ret.value), ret)
+            st = ast.copy_location(ast.Try(body=list(st.body[:-1]) + [asg], handlers=st.handlers,
+                                           orelse=[ast.copy_location(ast.Return(value=ast.Name(id=tv, ctx=ast.Load())), ret)], finalbody=[]), st)
+            ast.fix_missing_locations(st)
         if isinstance(st, ast.Try) and not st.finalbody and not _contains_return(st.body) and (
                 _contains_return([h_ for h in st.handlers for h_ in h.body]) or _contains_return(st.orelse)):
             # `try: A except: H (returns / raises / falls through)` + REST -> REST moves into the else-clause (and behind a handler
@@ -461,6 +475,226 @@ def _reference():
         except (OSError, ValueError):
             _REFERENCE[0] = {}
     return _REFERENCE[0]
+
+
+def resugar_tail_returns(tree):
+    """what the inliner leaves behind for `return helper(..)`: an if/try tree whose every tail is `__ret_x = E`, followed by
+    `return __ret_x`, becomes the tree with `return E` in its tails again; `try: ..; __tryval = E except ..: .. else: return
+    __tryval` becomes `try: ..; return E except ..` again"""
+    n = [0]
+
+    def tails_assign(block, x):
+        if not block:
+            return False
+        last = block[-1]
+        if isinstance(last, ast.Assign) and len(last.targets) == 1 and isinstance(last.targets[0], ast.Name) and last.targets[0].id == x:
+            return True
+        if isinstance(last, ast.If):
+            return bool(last.orelse) and tails_assign(last.body, x) and tails_assign(last.orelse, x)
+        if isinstance(last, ast.Try) and not last.finalbody:
+            return all(tails_assign(h.body, x) for h in last.handlers) and tails_assign(last.orelse if last.orelse else last.body, x)
+        return False
+
+    def push(block, x):
+        last = block[-1]
+        if isinstance(last, ast.Assign):
+            block[-1] = ast.copy_location(ast.Return(value=last.value), last)
+        elif isinstance(last, ast.If):
+            push(last.body, x)
+            push(last.orelse, x)
+        else:
+            for h in last.handlers:
+                push(h.body, x)
+            push(last.orelse if last.orelse else last.body, x)
+
+    for fn in ast.walk(tree):
+        if not isinstance(fn, (ast.FunctionDef, ast.AsyncFunctionDef)) or len(fn.body) < 2:
+            continue
+        last = fn.body[-1]
+        if not (isinstance(last, ast.Return) and isinstance(last.value, ast.Name) and last.value.id.startswith("__ret_")):
+            continue
+        x = last.value.id
+        prev = fn.body[-2]
+        if not isinstance(prev, (ast.If, ast.Try)) or not tails_assign([prev], x):
+            continue
+        uses = [y for y in ast.walk(fn) if isinstance(y, ast.Name) and y.id == x and isinstance(y.ctx, ast.Load)]
+        if len(uses) != 1:
+            continue
+        push(fn.body[:-1][-1:], x) if False else None
+        holder = [prev]
+        push(holder, x)
+        fn.body[-2:] = holder
+        n[0] += 1
+    for t in ast.walk(tree):
+        if isinstance(t, ast.Try) and not t.finalbody and len(t.orelse) == 1 and isinstance(t.orelse[0], ast.Return) \
+                and isinstance(t.orelse[0].value, ast.Name) and t.orelse[0].value.id.startswith("__tryval") and t.body \
+                and isinstance(t.body[-1], ast.Assign) and len(t.body[-1].targets) == 1 and isinstance(t.body[-1].targets[0], ast.Name) \
+                and t.body[-1].targets[0].id == t.orelse[0].value.id:
+            t.body[-1] = ast.copy_location(ast.Return(value=t.body[-1].value), t.body[-1])
+            t.orelse = []
+            n[0] += 1
+    if n[0]:
+        ast.fix_missing_locations(tree)
+    return n[0]
+
+
+def specialise_varargs(tree, modname=None):
+    """a private module-level function that today's tree does not have and that takes `*args` only to pass them on (`g(*args)`)
+    or to pick one (`args[-1]`) is cloned once per number of extra positional arguments its call sites supply, with the extra
+    arguments as ordinary parameters (keyword-only parameters become ordinary ones with their defaults); the call sites call
+    the clone, which the inliner can expand"""
+    ref = _reference() if modname else {}
+    n = 0
+    for f in list(tree.body):
+        if not (isinstance(f, ast.FunctionDef) and f.args.vararg and not f.args.kwarg and not f.args.defaults and not f.decorator_list
+                and f.name.startswith("_") and not f.name.startswith("__")):
+            continue
+        if modname and ("%s.%s" % (modname, f.name)) in ref:
+            continue
+        if any(d is None for d in f.args.kw_defaults):
+            continue
+        V = f.args.vararg.arg
+        uses = [x for x in ast.walk(f) if isinstance(x, ast.Name) and x.id == V]
+        good = 0
+        for x in ast.walk(f):
+            if isinstance(x, ast.Starred) and isinstance(x.value, ast.Name) and x.value.id == V and isinstance(x.ctx, ast.Load):
+                good += 1
+            elif isinstance(x, ast.Subscript) and isinstance(x.value, ast.Name) and x.value.id == V and isinstance(x.ctx, ast.Load) and (
+                    (isinstance(x.slice, ast.Constant) and isinstance(x.slice.value, int)) or (
+                        isinstance(x.slice, ast.UnaryOp) and isinstance(x.slice.op, ast.USub) and isinstance(x.slice.operand, ast.Constant))):
+                good += 1
+        if good != len(uses) or not uses:
+            continue
+        nfixed = len(f.args.args)
+        calls = [c for c in ast.walk(tree) if isinstance(c, ast.Call) and isinstance(c.func, ast.Name) and c.func.id == f.name]
+        if not calls or any(any(isinstance(a, ast.Starred) for a in c.args) or len(c.args) < nfixed for c in calls):
+            continue
+        clones = {}
+        okk = True
+        for c in calls:
+            k = len(c.args) - nfixed
+            if k in clones:
+                continue
+            g = copy.deepcopy(f)
+            g.name = "%s__va%d" % (f.name, k)
+            extras = ["%s_%d" % (V, i) for i in range(k)]
+            g.args.args = list(g.args.args) + [ast.arg(arg=e_) for e_ in extras] + list(g.args.kwonlyargs)
+            g.args.defaults = list(g.args.kw_defaults)
+            g.args.kwonlyargs, g.args.kw_defaults, g.args.vararg = [], [], None
+
+            class R(ast.NodeTransformer):
+                def visit_Call(self, node):
+                    self.generic_visit(node)
+                    new_args = []
+                    for a in node.args:
+                        if isinstance(a, ast.Starred) and isinstance(a.value, ast.Name) and a.value.id == V:
+                            new_args.extend(ast.Name(id=e_, ctx=ast.Load()) for e_ in extras)
+                        else:
+                            new_args.append(a)
+                    node.args = new_args
+                    return node
+
+                def visit_Subscript(self, node):
+                    self.generic_visit(node)
+                    if isinstance(node.value, ast.Name) and node.value.id == V:
+                        idx = node.slice.value if isinstance(node.slice, ast.Constant) else -node.slice.operand.value
+                        if not -k <= idx < k:
+                            raise IndexError
+                        return ast.copy_location(ast.Name(id=extras[idx % k], ctx=ast.Load()), node)
+                    return node
+            try:
+                g.body = [R().visit(st) for st in g.body]
+            except IndexError:
+                okk = False
+                break
+            ast.fix_missing_locations(g)
+            clones[k] = g
+        if not okk:
+            continue
+        for c in calls:
+            c.func.id = clones[len(c.args) - nfixed].name
+        pos = tree.body.index(f)
+        tree.body[pos + 1:pos + 1] = [clones[k] for k in sorted(clones)]
+        n += len(calls)
+    return n
+
+
+def refold_wrapper_calls(tree, modname=None):
+    """a method that is nothing but `return f(<its parameters and self.<attr> values>)` around a module-level function f that
+    today's tree does not have is the *public face* of f: inside the same class a call `f(x, y, self.attr)` that supplies the same
+    self.<attr> values is the call `self.method(x, y)` (the hoisted comparison / conversion function is folded back, so that
+    rules anchored on the method see its call sites again; f itself is expanded into the method by the inliner)"""
+    ref = _reference() if modname else {}
+    funcs = {n.name: n for n in tree.body if isinstance(n, ast.FunctionDef)}
+    n = 0
+    for cls in tree.body:
+        if not isinstance(cls, ast.ClassDef):
+            continue
+        for m in cls.body:
+            if not isinstance(m, ast.FunctionDef) or m.decorator_list or not m.args.args:
+                continue
+            body = [st for st in m.body if not (isinstance(st, ast.Expr) and isinstance(st.value, ast.Constant))]
+            if len(body) != 1 or not isinstance(body[0], ast.Return) or not isinstance(body[0].value, ast.Call):
+                continue
+            c = body[0].value
+            if not (isinstance(c.func, ast.Name) and c.func.id in funcs) or c.keywords or any(isinstance(a, ast.Starred) for a in c.args):
+                continue
+            f = funcs[c.func.id]
+            if modname and ("%s.%s" % (modname, f.name)) in ref:
+                continue
+            selfname = m.args.args[0].arg
+            params = [a.arg for a in m.args.args[1:]]
+            if m.args.vararg or m.args.kwarg or m.args.kwonlyargs or m.args.defaults:
+                continue
+            shape = []      # per argument of f: ("param", name) | ("self", attr)
+            okk = True
+            for a in c.args:
+                if isinstance(a, ast.Name) and a.id in params:
+                    shape.append(("param", a.id))
+                elif isinstance(a, ast.Attribute) and isinstance(a.value, ast.Name) and a.value.id == selfname:
+                    shape.append(("self", a.attr))
+                else:
+                    okk = False
+            if not okk or sorted(x[1] for x in shape if x[0] == "param") != sorted(params):
+                continue
+            fparams = [a.arg for a in f.args.args]
+            for other in cls.body:
+                if not isinstance(other, ast.FunctionDef) or other is m or not other.args.args:
+                    continue
+                oself = other.args.args[0].arg
+                if any(isinstance(d, ast.Name) and d.id == "staticmethod" for d in other.decorator_list):
+                    continue
+
+                class R(ast.NodeTransformer):
+                    def visit_Call(self, node):
+                        self.generic_visit(node)
+                        nonlocal n
+                        if not (isinstance(node.func, ast.Name) and node.func.id == f.name):
+                            return node
+                        if any(isinstance(a, ast.Starred) for a in node.args) or any(k.arg is None for k in node.keywords):
+                            return node
+                        args = list(node.args)
+                        for k in node.keywords:
+                            if k.arg not in fparams or fparams.index(k.arg) != len(args):
+                                return node
+                            args.append(k.value)
+                        if len(args) != len(shape):
+                            return node
+                        bound = {}
+                        for a, (kind, nm) in zip(args, shape):
+                            if kind == "self":
+                                if not (isinstance(a, ast.Attribute) and a.attr == nm and isinstance(a.value, ast.Name) and a.value.id == oself):
+                                    return node
+                            else:
+                                bound[nm] = a
+                        n += 1
+                        return ast.copy_location(ast.Call(func=ast.Attribute(value=ast.Name(id=oself, ctx=ast.Load()), attr=m.name, ctx=ast.Load()),
+                                                          args=[bound[p_] for p_ in params], keywords=[]), node)
+                for i_, st in enumerate(other.body):
+                    other.body[i_] = R().visit(st)
+    if n:
+        ast.fix_missing_locations(tree)
+    return n
 
 
 def inline_helpers(tree, extern=None, modname=None):
@@ -1281,6 +1515,17 @@ def inline_expression_helpers(tree, extern=None):
             for sub in node.body:
                 if isinstance(sub, ast.FunctionDef) and ok(sub):
                     methods[(node.name, sub.name)] = sub
+                elif isinstance(sub, ast.FunctionDef) and not sub.name.startswith("_") and not sub.decorator_list and len(sub.args.args) == 1 \
+                        and not sub.args.defaults and sub.name not in KEEP:
+                    # public accessor without arguments whose body is one expression (`def keys(self): return [c.mnemonic for ..]`):
+                    # `self.keys()` inside the class reads like the expression itself (the method stays where it is)
+                    sub.name = "_" + sub.name
+                    try:
+                        good = ok(sub)
+                    finally:
+                        sub.name = sub.name[1:]
+                    if good:
+                        methods[(node.name, sub.name)] = sub
     if not helpers and not methods:
         return 0
     n = [0]
@@ -1749,6 +1994,34 @@ def lower_ifexp(tree):
     if n[0]:
         ast.fix_missing_locations(tree)
     return n[0]
+
+
+def propagate_param_copies(tree):
+    """`local__helper7 = param` left behind by the inliner (a helper's local that was bound to what is, at this call site, a
+    parameter of the caller which is never re-bound): the copy is the parameter"""
+    import re as _re
+    n = 0
+    for fn in [x for x in ast.walk(tree) if isinstance(x, (ast.FunctionDef, ast.AsyncFunctionDef))]:
+        stores = {}
+        for sub in ast.walk(fn):
+            if isinstance(sub, ast.Name) and isinstance(sub.ctx, (ast.Store, ast.Del)):
+                stores[sub.id] = stores.get(sub.id, 0) + 1
+            if isinstance(sub, (ast.Global, ast.Nonlocal)):
+                for nm in sub.names:
+                    stores[nm] = stores.get(nm, 0) + 5
+        params = {a.arg for a in fn.args.args + fn.args.kwonlyargs}
+        for st in [x for x in ast.walk(fn) if isinstance(x, ast.Assign)]:
+            if not (len(st.targets) == 1 and isinstance(st.targets[0], ast.Name) and isinstance(st.value, ast.Name)):
+                continue
+            a, b = st.targets[0].id, st.value.id
+            if a == b or not _re.search(r".__.+\d$", a) or stores.get(a) != 1 or stores.get(b, 0) != 0 or b not in params:
+                continue
+            for x in ast.walk(fn):
+                if isinstance(x, ast.Name) and x.id == a and isinstance(x.ctx, ast.Load):
+                    x.id = b
+            st.targets[0].id = "__dead_" + a
+            n += 1
+    return n
 
 
 def propagate_aliases(tree):
@@ -2609,9 +2882,15 @@ def scalarize_local_records(tree):
             if len(stores) != len(defs):
                 continue
             attrs = [x for x in ast.walk(fn) if isinstance(x, ast.Attribute) and isinstance(x.value, ast.Name) and x.value.id == name
-                     and isinstance(x.ctx, ast.Load) and (x.attr in fields or x.attr == "_replace")]
+                     and isinstance(x.ctx, ast.Load) and (x.attr in fields or x.attr in ("_replace", "_asdict"))]
             repl = [x for x in attrs if x.attr == "_replace"]
             if len(repl) != sum(1 for st, _ in defs if isinstance(st.value.func, ast.Attribute)):
+                continue
+            # `f(.., **r._asdict())`: the record's fields as keyword arguments
+            asd = [x for x in attrs if x.attr == "_asdict"]
+            spreads = [k for c_ in ast.walk(fn) if isinstance(c_, ast.Call) for k in c_.keywords if k.arg is None and isinstance(k.value, ast.Call)
+                       and not k.value.args and not k.value.keywords and any(k.value.func is a_ for a_ in asd)]
+            if len(spreads) != len(asd):
                 continue
             if len(names) != len(stores) + len(attrs):
                 continue
@@ -2656,8 +2935,18 @@ def scalarize_local_records(tree):
                         out.append(st)
                 return out
             _map_blocks(fn, blockfn)
+            for c_ in ast.walk(fn):
+                if isinstance(c_, ast.Call) and any(k in spreads for k in c_.keywords):
+                    kws = []
+                    for k in c_.keywords:
+                        if any(k is sp_ for sp_ in spreads):
+                            kws.extend(ast.keyword(arg=f_, value=ast.Name(id="%s__%s" % (name, f_), ctx=ast.Load())) for f_ in fields)
+                        else:
+                            kws.append(k)
+                    c_.keywords = kws
             for top in fn.body:
                 R().visit(top)
+            ast.fix_missing_locations(fn)
             n += 1
     return n
 
@@ -3193,6 +3482,8 @@ def normalize(tree, extern=None, modname=None):
     stats["writerows"] = lower_writerows(tree)
     stats["zip_count"] = lower_zip_count(tree)
     stats["dict_dispatch"] = lower_dict_dispatch(tree)
+    stats["varargs"] = specialise_varargs(tree, modname)
+    stats["refolded"] = refold_wrapper_calls(tree, modname)
     stats["generators"] = inline_simple_generators(tree, extern, modname)
     stats["found_flag"] = resugar_found_flag(tree)
     stats["closures"] = inline_local_closures(tree, modname)
@@ -3202,7 +3493,10 @@ def normalize(tree, extern=None, modname=None):
         if not n:
             break
     stats["found_flag"] += resugar_found_flag(tree)      # find-first helpers that were just expanded
+    stats["tail_returns"] = resugar_tail_returns(tree)
+    stats["records"] += scalarize_local_records(tree)      # records built by helpers that were just expanded
     stats["expr_inlined"] = inline_expression_helpers(tree, extern)
+    stats["param_copies"] = propagate_param_copies(tree)
     stats["aliases"] = propagate_aliases(tree)
     stats["local_tables"] = propagate_local_tables(tree)
     stats["unrolled"] = unroll_constant_loops(tree)
